@@ -145,8 +145,9 @@ def gen_observances(rnd, well_separated=True):
         return [Obs("STANDARD", datetime(y0, 1, 1, 0), base, base, names[0], None)] + \
                ([Obs("DAYLIGHT", datetime(y0 + 1, rnd.randint(2, 11), rnd.randint(1, 28), hour), base, dst, names[1], None)] if rnd.random() < 0.6 else [])
     if shape == "rdates":
-        ds = sorted({datetime(y0 + k, rnd.randint(3, 5), rnd.randint(1, 28), hour) for k in range(1, rnd.randint(2, 5))})
-        ss = [datetime(t.year, rnd.randint(9, 11), rnd.randint(1, 28), hour + 1) for t in ds]
+        # (every RDATE has its own time of day: it need not be DTSTART's)
+        ds = sorted({datetime(y0 + k, rnd.randint(3, 5), rnd.randint(1, 28), rnd.choice([1, 2, 3])) for k in range(1, rnd.randint(2, 5))})
+        ss = [datetime(t.year, rnd.randint(9, 11), rnd.randint(1, 28), rnd.choice([2, 3, 4])) for t in ds]
         return [Obs("STANDARD", datetime(y0, 1, 1, 0), base, base, names[0], None),
                 Obs("DAYLIGHT", ds[0], base, dst, names[1], ("rdate", ds[1:]) if len(ds) > 1 else None),
                 Obs("STANDARD", ss[0], dst, base, names[0], ("rdate", ss[1:]) if len(ss) > 1 else None)]
